@@ -41,7 +41,7 @@ package sender
 // target (the last definition of a name wins); the built-in default is only added when no target is
 // named "default".
 //@ func New
-//@ props C19
+//@ props C19 C18
 //@ nopanic C13
 //@ requires a != nil && metrics != nil && config != nil
 //@ loop-complete 1
